@@ -111,10 +111,6 @@ theorem bridge_setBit (d : BitVec 64) (i : BitVec 8) (b : Bool) : Data_SetBit_re
 theorem bridge_checkValue (v : BitVec 64) (b : BitVec 8) : CheckValue_ret v b = !checkValue v b.toNat ∧ CheckValue_ok v b = true := by
   bridge
 
-theorem bridge_validate (f : Gen.Go.Frame) :
-    Frame_Validate_ret f = !(CanVerif.Frame.validate ⟨f.ID, f.Length, f.Data, f.IsRemote, f.IsExtended⟩) ∧ Frame_Validate_ok f = true := by
-  bridge
-
 /-- `CheckBitRangeLittleEndian` restated over bit-vectors (int = 64-bit two's complement), true = error -/
 def checkLE_bv (fl s l : BitVec 8) : Bool :=
   BitVec.sle (BitVec.setWidth 64 fl * 8#64) (BitVec.setWidth 64 s + BitVec.setWidth 64 l - 1#64)
